@@ -73,6 +73,17 @@ func IsFlexible(key, version int16) (flexible, ok bool) {
 	return ok && version >= f, ok
 }
 
+// Pick chooses an index in [0,n) without rapid's bias towards small values (the draw is a
+// rapid draw, so it is replayable; it is hashed so that every index is equally likely).
+func Pick(t *rapid.T, label string, n int) int {
+	u := rapid.Uint64().Draw(t, label)
+	u += 0x9e3779b97f4a7c15
+	u = (u ^ (u >> 30)) * 0xbf58476d1ce4e5b9
+	u = (u ^ (u >> 27)) * 0x94d049bb133111eb
+	u ^= u >> 31
+	return int(u % uint64(n))
+}
+
 // NewRequest returns an empty request struct for key at version (nil when kmsg does not know the key).
 func NewRequest(key, version int16) kmsg.Request {
 	r := kmsg.RequestForKey(key)
@@ -174,7 +185,7 @@ func fillValue(t *rapid.T, fv reflect.Value, name string, key int16, flexible bo
 		callDefault(fv)
 		fillStruct(t, fv, key, flexible, env, sh, path, depth+1, false)
 	case reflect.Slice:
-		n := rapid.IntRange(-1, maxArr(env)).Draw(t, path+"#")
+		n := rapid.SampledFrom([]int{1, 2, 0, maxArr(env), -1}).Draw(t, path+"#")
 		if depth >= 3 && n > 1 {
 			n = 1
 		}
